@@ -254,7 +254,6 @@ func runC05(res *Result, rng *RNG, tier string, outDir string) {
 		res.CaseDescs = append(res.CaseDescs, "program facts="+predsString(p.Facts)+" rules="+rulesString(p.Rules))
 	}
 	res.ModelCases = len(lines)
-	cf.Raw("Definition cases : list dl_case := [\n  " + joinLines(lines) + "].\n")
-	cf.Raw("Definition M := Eval vm_compute in mismatches (dl_ok (fun _ _ => None)) cases.\nPrint M.\n")
-	cf.WriteTo(outDir, "Cases_C05.v")
+	_ = cf
+	WriteShards(res, outDir, "C05", "Base Term Expr Datalog Corr", "", "dl_case", "dl_ok (fun _ _ => None)", lines, 500)
 }
